@@ -34,12 +34,20 @@ def Rej.toString : Rej → String
   | .msg => "msg" | .fee => "fee" | .sig => "sig" | .nonce => "nonce" | .funds => "funds"
   | .unsupported => "unsupported"
 
-inductive Scheme | ed25519 | eth | secp | bls
+def Rej.all : List Rej :=
+  [.unmarshal, .emptyMsg, .msgName, .emptySig, .txHeight, .txTime, .memo, .nilNetwork, .emptyChain, .wrongNetwork,
+   .wrongChain, .dup, .rlp, .protocol, .msg, .fee, .sig, .nonce, .funds, .unsupported]
+
+def Rej.ofString (s : String) : Option Rej := Rej.all.find? (·.toString == s)
+
+inductive Scheme | ed25519 | eth | secp | bls | multi
   deriving DecidableEq, Repr
 
 /-- `crypto.NewPublicKeyFromBytes`: scheme and canonical key bytes (`PublicKeyI.Bytes()`); whether the
 bytes are a point on the curve is not modelled (a key that does not exist has no signatures).
-Multi-signature keys (any other length: a protobuf `MultiPublicKey`) are outside the model. -/
+Any other length is offered to `NewMultiBLSFromPublicKey` (a protobuf `MultiPublicKey`: key list, signer
+bitmap, threshold); the model treats the whole byte string as the key, so two signer subsets of one
+multi-signature account are two keys with one address. -/
 def pkDecode (pk : Bytes) : Option (Scheme × Bytes) :=
   if pk.length == 32 then some (.ed25519, pk)
   else if pk.length == 64 then some (.eth, pk)
@@ -49,7 +57,7 @@ def pkDecode (pk : Bytes) : Option (Scheme × Bytes) :=
     | _ => none
   else if pk.length == 33 then some (.secp, pk)
   else if pk.length == 48 then some (.bls, pk)
-  else none
+  else some (.multi, pk)
 
 /-- the public key is in the encoding `PublicKeyI.Bytes()` produces -/
 def pkCanonical (pk : Bytes) : Bool :=
@@ -62,6 +70,7 @@ structure RlpEntry where
   ethTx : Bytes        -- the raw Ethereum transaction carried in `Signature.signature`
   ethHash : Bytes      -- its Ethereum hash (lookup alias in the indexer)
   canonTx : Bytes      -- `lib.Marshal` of the Canopy transaction the conversion yields
+  convErr : Option Rej -- the conversion fails with this class instead
   deriving DecidableEq, Repr
 
 structure Env where
@@ -220,7 +229,10 @@ def checkSignature (e : Env) (strict : Bool) (t : TxContent) (g : SigC) (authori
         if !hasEth then .error .sig
         else match e.rlpOf (t.memo == rlpV2Memo) g.signature with
           | none => .error .rlp
-          | some r => if r.canonTx == canon t then .ok () else .error .sig   -- `VerifyRLPBytes`
+          | some r =>                                                        -- `VerifyRLPBytes`
+            match r.convErr with
+            | some err => .error err
+            | none => if r.canonTx == canon t then .ok () else .error .sig
       else if e.verifies k (signBytes t) g.signature then .ok () else .error .sig
     match verified with
     | .error r => .error r
